@@ -620,6 +620,19 @@ class ExprMixin(object):
             raise OutOfReach('comparison op')
 
     def order(self, st, op, a, b):
+        if a.is_py and b.is_py and isinstance(a.py, tuple) and isinstance(b.py, tuple) and len(a.py) == len(b.py) \
+                and all(self.num_or_str(x) == 'I' for x in a.py + b.py):
+            # lexicographic comparison of two int tuples
+            strict = isinstance(op, (ast.Lt, ast.Gt))
+            gt = isinstance(op, (ast.Gt, ast.GtE))
+            xs = [self.term(x, 'I') for x in a.py]
+            ys = [self.term(y, 'I') for y in b.py]
+            if gt:
+                xs, ys = ys, xs
+            res = z3.BoolVal(not strict)
+            for x, y in reversed(list(zip(xs, ys))):
+                res = z3.Or(x < y, z3.And(x == y, res))
+            return st, res
         if a.is_py and b.is_py and isinstance(a.py, (int, str)) and isinstance(b.py, (int, str)) and type(a.py) == type(b.py):
             f = {ast.Lt: lambda x, y: x < y, ast.LtE: lambda x, y: x <= y, ast.Gt: lambda x, y: x > y,
                  ast.GtE: lambda x, y: x >= y}[type(op)]
@@ -643,6 +656,12 @@ class ExprMixin(object):
     def order_narrow(self, st, op, a, b, depth=0):
         """ordering comparison with None-able operands: None raises TypeError (python 3)"""
         for which, x in ((0, a), (1, b)):
+            if not x.is_py and x.ty.kind == 'opt' and code_of(x.ty.args[0]) in 'SI' and self.spec_mode:
+                # contract clauses guard None themselves; the comparison is on the unboxed value
+                st2, u = self.unbox(st, x.term, x.ty.args[0])
+                for r in self.order_narrow(st2, op, u if which == 0 else a, b if which == 0 else u, depth + 1):
+                    yield r
+                return
             if not x.is_py and x.ty.kind == 'opt' and code_of(x.ty.args[0]) in 'SI':
                 for st1, isn in self.branch(st, self.is_none(x)):
                     if isn:
@@ -705,9 +724,16 @@ class ExprMixin(object):
                 for r in self.contains(st, v.d, item, fr):
                     yield r
                 return
+            if type(v).__name__ == 'ClassDep' and not item.is_py:
+                cls = self.H(st, 'cls')
+                alts = []
+                for n, val in v.vals.items():
+                    if not isinstance(val, (tuple, list, frozenset, set)):
+                        raise OutOfReach('membership in a class-dependent attribute that is not a collection')
+                    alts.append(self.and_([cls[v.obj.term] == self.world.cid(n), self.or_([self.eq(st, item, mk(x)) for x in val])]))
+                yield st, self.or_(alts)
+                return
             if type(v).__name__ == 'ClassDep':
-                if not item.is_py:
-                    raise OutOfReach('symbolic item in class-dependent attribute')
                 res = {n: (item.py in val) for n, val in v.vals.items()}
                 if all(res.values()) or not any(res.values()):
                     yield st, all(res.values())
